@@ -16,6 +16,9 @@ Record static_ref := { sr_obj : string; sr_name : string; sr_on_build_path : boo
 Definition reviewed : list static_ref :=
   [ {| sr_obj := "basics.cpp"; sr_name := "NullFreq"; sr_on_build_path := true;
        sr_why := "initialised statically, only read (the coder compares frequencies with it)" |};
+    {| sr_obj := "StringDictionaryHASHRPDACBlocks.cpp";
+       sr_name := "Worker::Worker(WorkerQueue&, std::mutex&, std::condition_variable&)::workers_count"; sr_on_build_path := true;
+       sr_why := "function-local counter of Worker's constructor (worker_id = workers_count++): written only by the thread that constructs the pool, before the new worker's thread is started; worker_id is an identifier that no decision depends on" |};
     {| sr_obj := "heap.cpp"; sr_name := "Heap::prnH(Theap*)::X"; sr_on_build_path := false;
        sr_why := "local static of the debug printer prnH, which no constructor calls" |};
     {| sr_obj := "BitSequenceRRR.cpp"; sr_name := "cds_static::BitSequenceRRR::E"; sr_on_build_path := false;
